@@ -37,18 +37,20 @@ POOL = {
     "stamp": Stamp(2020, 1, 2, 12, 0, 0), "day": Day(2020, 1, 3),
     # NumPy's own missing scalars: elements of a date / timedelta vector (e.g. `list(v[1:]) + [None]`) that are missing already
     "np.nat": np.datetime64("NaT"), "np.tdnat": np.timedelta64("NaT"),
+    # numbers NumPy has a dtype for but the library no missing value: with a missing element next to them they stay objects
+    "complex": 1 + 2j,
 }
-NAT_NAMES = ("np.nat", "np.tdnat")
+NAT_NAMES = ("np.nat", "np.tdnat", "complex")
 KIND = {"None": "none", "nan": "nan", "True": "bool", "False": "bool", "1": "int", "big": "int", "1.5": "float", "a": "str", "empty": "str",
         "date": "date", "datetime": "datetime", "timedelta": "timedelta", "bytes": "bytes", "tuple": "obj", "np.bool": "npbool",
         "np.int": "npint", "np.float": "npfloat", "np.nan": "npnan", "np.dt": "npdt", "np.str": "npstr",
-        "inf": "float", "-inf": "float", "-0.0": "float", "huge": "float", "stamp": "datesub", "day": "datesub", "np.nat": "npnat", "np.tdnat": "nptdnat"}
-DTYPES = [None, "bool", "int", "float", "str", "object", "datetime64[D]", "datetime64[us]", "timedelta64[s]"]
+        "inf": "float", "-inf": "float", "-0.0": "float", "huge": "float", "stamp": "datesub", "day": "datesub", "np.nat": "npnat", "np.tdnat": "nptdnat", "complex": "complex"}
+DTYPES = [None, "bool", "int", "float", "str", "object", "datetime64[D]", "datetime64[us]", "timedelta64[s]", "StringDType()"]
 FAMILIES = [["True", "False"], ["1", "big"], ["1.5", "1"], ["a", "empty"], ["date"], ["datetime"], ["timedelta"], ["bytes"], ["tuple", "1"],
             ["np.bool"], ["np.int"], ["np.float", "np.nan"], ["np.dt"], ["np.str"], ["True", "1"], ["1", "a"], ["date", "datetime"],
             ["True", "1.5"], ["a", "1.5"], ["1.5", "inf", "-inf"], ["inf", "-0.0", "huge", "1"],
             ["stamp"], ["day"], ["stamp", "datetime"], ["day", "date"],
-            ["np.nat"], ["np.nat"], ["np.nat", "np.dt"], ["np.nat", "date"], ["np.tdnat"]]
+            ["np.nat"], ["np.nat"], ["np.nat", "np.dt"], ["np.nat", "date"], ["np.tdnat"], ["complex"], ["complex", "1.5"], ["complex", "1"]]
 
 
 def gen_case(rng, tier):
@@ -98,6 +100,10 @@ def np_dtype(name):
     import dataiter as di
     if name is None:
         return None
+    if name == "StringDType()":
+        # a variable-width string dtype that is NOT dataiter's own instance (what `astype("T")`, pyarrow or a caller's own
+        # `StringDType()` give): a string vector like any other
+        return np.dtypes.StringDType()
     return {"bool": bool, "int": int, "float": float, "str": str, "object": object}.get(name, name)
 
 
@@ -152,7 +158,7 @@ def pyeq(a, b):
 COMPAT = {"bool": {"bool", "npbool"}, "int": {"int", "npint", "bool", "npbool"}, "float": {"float", "npfloat", "int", "npint"},
           "str": {"str", "npstr"}, "ustr": {"str", "npstr"}, "date": {"date", "npdt"}, "datetime": {"datetime", "date", "npdt"},
           "timedelta": {"timedelta"}, "bytes": {"bytes"},
-          "object": {"bool", "int", "float", "str", "date", "datetime", "timedelta", "bytes", "obj", "npbool", "npint", "npfloat", "npdt", "npstr"}}
+          "object": {"bool", "int", "float", "str", "date", "datetime", "timedelta", "bytes", "obj", "npbool", "npint", "npfloat", "npdt", "npstr", "complex"}}
 
 
 def compatible(name, dclass):
@@ -226,13 +232,14 @@ def impl(case):
 def model_requests(case, obs):
     if any(n in NAT_NAMES for n in case["names"]):
         return []
-    return [("construct", {"kinds": [KIND[n] for n in case["names"]], "empties": [n == "empty" for n in case["names"]], "dtype": case["dtype"]})]
+    return [("construct", {"kinds": [KIND[n] for n in case["names"]], "empties": [n == "empty" for n in case["names"]],
+                           "dtype": "str" if case["dtype"] == "StringDType()" else case["dtype"]})]
 
 
 def expected_na_capable(case):
     """does the property claim the NA mapping for this case? (inferred dtypes; explicit dtypes that
     have a missing value or widen to one)"""
-    return case["dtype"] in (None, "int", "float", "str", "object", "datetime64[D]", "datetime64[us]", "timedelta64[s]")
+    return case["dtype"] in (None, "int", "float", "str", "object", "datetime64[D]", "datetime64[us]", "timedelta64[s]", "StringDType()")
 
 
 def judge(ctx, case, obs, mouts):
